@@ -10,49 +10,53 @@ outside … the declared precision and scale (`.decimal()`) or the finite double
     ratio   := math.Pow10(scale)
     rounded := num                               if num*ratio is ±Inf and ratio is finite   (repair of D37)
                math.Round(num*ratio) / ratio     otherwise
+    error (suppressible) if rounded is ±Inf                                                (repair ac546c4)
     count   := number of the characters 1…9 before the '.' of FormatFloat(rounded,'f',-1,64)
-    error if count > 0 && count > precision − scale, else rounded
+    error (suppressible) if count > 0 && count > precision − scale, else rounded
 
 `DecimalMethod.decimalRound num ratio` is `rounded`; `DecimalMethod.rejected p s x` is the digit check
 (`DecimalMethod.exec_eq`, `exec_ok_cases`: every successful call with arguments is of this shape).
-`num x / den x` is the exact value of a finite double as a fraction (`Lemmas/Rounding.lean`).
+`num x / den x` is the exact value of a finite double as a fraction (`Lemmas/Rounding.lean`).  `F64.pow10` is Go's
+`math.Pow10` as written (a rounded product / quotient of two table entries).
 
 ## What is proved (every finite well-formed `num`, every precision 1…1000, every scale in the stated range)
 
-(a) **finite result.**  `decimal_finite`: for `0 ≤ scale ≤ 308` a returned value is finite (and well formed, never NaN:
-    `decimal_wellformed`).  `decimal_tiny_scale`: for `-323 ≤ scale ≤ -309` the result is the zero with the sign of `num`
-    (which is the right answer: `tiny_scale_zero_is_right`).  For `-308 ≤ scale ≤ -1` the statement is FALSE — see Findings;
-    `decimal_neg_scale_inf_iff` says exactly when the result is infinite.
+(a) **finite result.**  `decimal_finite`: for `-323 ≤ scale ≤ 308` — every scale at which `math.Pow10` is finite and
+    non-zero — a returned value is a finite double (never ±Inf, never NaN; well formed, sign bit of the input:
+    `decimal_wellformed`).  `decimal_nonneg_scale_no_overflow`: for `0 ≤ scale ≤ 308` the rounded value is never infinite
+    (the new error branch is not taken); `decimal_tiny_scale`: for `-323 ≤ scale ≤ -309` the result is the zero with the
+    sign of `num` (the right answer: `tiny_scale_zero_is_right`).  `decimal_rejects_overflow_iff`: for `-323 ≤ scale ≤ 0`
+    the error branch for an infinite value is taken exactly when `round(num*ratio)/ratio ≥ 2^1024 − 2^970`
+    (`decimal_neg_scale_inf_iff`).
 (b) **the D37 repair is right.**  `decimal_overflow_unchanged`: if `num * Pow10(scale)` is infinite while `Pow10(scale)` is
     finite then `0 < scale ≤ 308`, `num * 10^scale` is an integer (as an exact rational: `num` is a multiple of
-    `10^-scale`), `num` has at most `min(scale, 52)` binary fraction digits, and the method returns `num`.
-(c) **accuracy.**  `decimal_accuracy`: for `-307 ≤ scale ≤ 308` and a finite result `x`:
+    `10^-scale`), `num` has at most `min(scale, 52)` binary fraction digits, and the rounding step returns `num`.
+(c) **accuracy.**  `decimal_accuracy`: for `-307 ≤ scale ≤ 308` a returned `x` satisfies
     `|x − num| ≤ (1/2 + 2^-50)·10^-scale + 2^-51·|num|` (cross-multiplied), and `x` has the sign bit of `num`;
     `decimal_scale_zero_is_round`: at scale 0 the result is exactly `math.Round(num)` (nearest integer, halves away from
     zero: `round_is_nearest_integer`); `decimal_unchanged`: for `0 ≤ scale ≤ 22` a value with at most `scale` decimals whose
-    scaled value is below `2^53` is returned unchanged.  Beyond scale 22 that fails (Findings).
+    scaled value is below `2^53` is returned unchanged.  Beyond that it can move by one unit in the last place (Findings).
 (d) **D17c stated exactly.**  `decimal_scale_above_308_nan`, `decimal_scale_below_minus323_nan`: for `308 < scale ≤ 1000`
     and for `-1000 ≤ scale < -323` the method returns NaN, without error, for EVERY input (zero, infinities, NaN included).
 (e) **D17b stated exactly.**  `digit_count_is`, `digit_count_of_double`, `digit_check_iff`, `accepted_though_too_long_iff`:
     the check counts the non-zero digits among the integer digits of the shortest text; a value whose integer part has more
     than `precision − scale` digits is accepted exactly when enough of them are `0`.
-(f) everything in (a)–(c) holds as well for the ratio that Go's `math.Pow10` REALLY returns (`…_go`).
 
 ## Findings (each checked on /repo with go1.23.5)
 
-* **F1 — the model's `F64.pow10` is not Go's `math.Pow10`** at 169 of the 632 scales −323…308 (`pow10_differs`; first 33
-  and −23).  Go multiplies/divides two rounded table entries (`DecimalMethod.goPow10`, mirror of math/pow10.go); the model
-  rounds `10^n` correctly.  Visible through the method: `$.decimal(50,33)` on `2e-33` is `1.9999999999999998e-33` in Go and
-  `2e-33` in the model (`model_differs_from_go`); `$.decimal(50,-23)` on `3e23` is `2.9999999999999997e+23` in Go.
-* **F2 — `+Inf` is returned for a finite input at negative scales**: `$.decimal(1000,-308)` on `MaxFloat64` returns `+Inf`
-  without error, in Go and in the model (`neg_scale_returns_inf`): `round(1.797…) = 2`, `2 / 1e-308 = +Inf`.  The correct
-  outcome is an error (the rounded value `2e308` is outside the finite doubles).  `neg_scale_overflow_scales` lists the
-  scales at which `MaxFloat64` overflows: −308…−304, −299, −298, −294, −293, for both ratios.
-* **F3 — the result is not always the double nearest to the decimal rounding** (one unit in the last place off), even with a
-  correctly rounded ratio: `$.decimal(50,34)` on `1e-34` returns `1.0000000000000001e-34` in the model
-  (`not_idempotent_beyond_22`; Go happens to return `1e-34` there but returns `9.999999999999999e-34` for `1e-33` at scale
-  33; `$.decimal(1000,22)` on `0.1234567` returns `0.12345669999999999` in Go and in the model although `10^22` is exact:
-  `unchanged_needs_small_scaled_value`).  This is inherent to `round(num*ratio)/ratio` and within the bound of (c).
+* **F1 — `math.Pow10(n)` is not the double nearest to `10^n`** at 169 of the 632 scales −323…308 (`pow10_not_nearest`; the
+  nearest to zero are 33 and −23; on −22…32 it is: `pow10_nearest_near_zero`): Go multiplies / divides two rounded table
+  entries.  (Until this proof the model returned the nearest double, `DecimalMethod.nearestPow10`; it now mirrors Go.)
+  Visible through the method: `$.decimal(50,33)` on `2e-33` is `1.9999999999999998e-33`, `$.decimal(50,-23)` on `3e23` is
+  `2.9999999999999997e+23`; with the nearest ratio both inputs would come back unchanged (`inexact_ratio_is_visible`).
+* **F2 — repaired (ac546c4).**  `$.decimal(1000,-308)` on `MaxFloat64` used to return `+Inf` without error
+  (`round(1.797…) = 2`, `2 / 1e-308 = +Inf`); it is now the suppressible error (`neg_scale_overflow_is_error`).
+  `neg_scale_overflow_scales` lists the scales at which `MaxFloat64` takes that branch: −308…−304, −299, −298, −294, −293.
+* **F3 — the result is not always the double nearest to the decimal rounding** (one unit in the last place off):
+  `$.decimal(50,33)` on `1e-33` returns `9.999999999999999e-34` (`not_idempotent_beyond_22`); `$.decimal(1000,22)` on
+  `0.1234567` returns `0.12345669999999999` although `10^22` is exact (`unchanged_needs_small_scaled_value`); the nearest
+  ratio would not cure it (`1e-34` at scale 34 would become `1.0000000000000001e-34`).  Inherent to
+  `round(num*ratio)/ratio`; within the bound of (c).
 * D17b besides the zeros: a scale larger than the precision is not enforced at all for `|num| < 1`
   (`small_value_any_scale_accepted`: `.decimal(2,5)` accepts `0.5`, which PostgreSQL's `numeric(2,5)` rejects).
 -/
@@ -64,23 +68,40 @@ open Sqljson Rounding Exec DecimalMethod
 
 theorem ok_shape {l r : Option Node} {v x : F64} {s : Int} (hr : scaleArg r = some s)
     (h : executeDecimalMethod l r v = .ok x) :
-    x = v ∨ (x = decimalRound v (F64.pow10 s) ∧ -1000 ≤ s ∧ s ≤ 1000) := by
-  rcases exec_ok_cases h with ⟨_, hx⟩ | ⟨p, s', _, hs', _, _, h1, h2, hx, _⟩
+    x = v ∨ (x = decimalRound v (F64.pow10 s) ∧ x.isInf = false ∧ -1000 ≤ s ∧ s ≤ 1000) := by
+  rcases exec_ok_cases h with ⟨_, hx⟩ | ⟨p, s', _, hs', _, _, h1, h2, hx, hi, _⟩
   · exact Or.inl hx
   · rw [hr] at hs'
     cases hs'
-    exact Or.inr ⟨hx, h1, h2⟩
+    exact Or.inr ⟨hx, hi, h1, h2⟩
+
+/-- `math.Pow10` outside its range -/
+theorem pow10_above (s : Int) (h : 308 < s) : F64.pow10 s = .inf false := by
+  unfold F64.pow10
+  rw [if_neg (by omega), if_neg (by omega), if_pos (by omega)]
+
+theorem pow10_below (s : Int) (h : s < -323) : F64.pow10 s = .fin false 0 F64.minExp := by
+  unfold F64.pow10
+  rw [if_neg (by omega), if_neg (by omega), if_neg (by omega)]
 
 /-! ## (a) the result is finite -/
 
-/-- **`.decimal(p, s)` never returns ±Inf or NaN for `0 ≤ s ≤ 308`**: whatever the finite input and the precision, a
-    returned value is a finite double.  (D37 was the case `v * 10^s = ±Inf`.) -/
+/-- **`.decimal(p, s)` never returns ±Inf or NaN for `-323 ≤ s ≤ 308`** — every scale at which `math.Pow10` is finite
+    and non-zero: whatever the finite input and the precision, a returned value is a finite double.  (D37 was the case
+    `num * 10^s = ±Inf`; the overflow of the final division at negative scales is now an error.) -/
 theorem decimal_finite (l r : Option Node) (v x : F64) (s : Int)
-    (hf : v.isFinite = true) (hw : F64.WF v) (hr : scaleArg r = some s) (h0 : 0 ≤ s) (h1 : s ≤ 308)
+    (hf : v.isFinite = true) (hw : F64.WF v) (hr : scaleArg r = some s) (h0 : -323 ≤ s) (h1 : s ≤ 308)
     (h : executeDecimalMethod l r v = .ok x) : x.isFinite = true := by
-  rcases ok_shape hr h with hx | ⟨hx, _, _⟩
+  rcases ok_shape hr h with hx | ⟨hx, hni, _, _⟩
   · rw [hx]; exact hf
-  · rw [hx]; exact decimalRound_finite (pow10_facts s (by omega) h1) h0 hf hw
+  · apply finite_of_not_inf_nan hni
+    rw [hx]
+    exact (decimalRound_not_nan (pow10_facts s h0 h1) hf hw).1
+
+/-- for `0 ≤ s ≤ 308` the rounded value is finite by itself: the error branch for an infinite value is never taken -/
+theorem decimal_nonneg_scale_no_overflow (v : F64) (s : Int) (hf : v.isFinite = true) (hw : F64.WF v)
+    (h0 : 0 ≤ s) (h1 : s ≤ 308) : (decimalRound v (F64.pow10 s)).isFinite = true :=
+  decimalRound_finite (pow10_facts s (by omega) h1) h0 hf hw
 
 /-- for every scale at which `math.Pow10` is finite and non-zero (−323 … 308) the result is never NaN, has the sign bit of
     the input, and is a well-formed double when finite -/
@@ -88,7 +109,7 @@ theorem decimal_wellformed (l r : Option Node) (v x : F64) (s : Int)
     (hf : v.isFinite = true) (hw : F64.WF v) (hr : scaleArg r = some s) (h0 : -323 ≤ s) (h1 : s ≤ 308)
     (h : executeDecimalMethod l r v = .ok x) :
     x.isNaN = false ∧ x.signBit = v.signBit ∧ (x.isFinite = true → F64.WF x) := by
-  rcases ok_shape hr h with hx | ⟨hx, _, _⟩
+  rcases ok_shape hr h with hx | ⟨hx, hni, _, _⟩
   · rw [hx]
     obtain ⟨n, m, e, rfl⟩ := fin_of_finite hf
     exact ⟨rfl, rfl, fun _ => hw⟩
@@ -96,29 +117,17 @@ theorem decimal_wellformed (l r : Option Node) (v x : F64) (s : Int)
     have hR := pow10_facts s h0 h1
     exact ⟨(decimalRound_not_nan hR hf hw).1, decimalRound_signBit_facts hR hf hw, (decimalRound_not_nan hR hf hw).2⟩
 
-/-- the same for the ratio Go's `math.Pow10` really returns -/
-theorem decimal_finite_go (v : F64) (s : Int) (hf : v.isFinite = true) (hw : F64.WF v)
-    (h0 : 0 ≤ s) (h1 : s ≤ 308) : (decimalRound v (goPow10 s)).isFinite = true :=
-  decimalRound_finite (goPow10_facts s (by omega) h1) h0 hf hw
-
 /-- **scales −323 … −309** (`Pow10` is a subnormal number below `2^-1026`): the scaled value is below 1/4, so the method
     returns the zero with the sign of the input — for every finite input and every precision -/
 theorem decimal_tiny_scale (l r : Option Node) (p s : Int) (n : Bool) (m : Nat) (e : Int)
     (hw : F64.WF (.fin n m e)) (hl : intArg l = some p) (hp1 : 1 ≤ p) (hp2 : p ≤ 1000)
     (hr : scaleArg r = some s) (h0 : -323 ≤ s) (h1 : s ≤ -309) :
     executeDecimalMethod l r (.fin n m e) = .ok (.fin n 0 F64.minExp) := by
-  rw [exec_eq p s l r _ hl hr hp1 hp2 (by omega) (by omega),
-    decimalRound_tiny (pow10_facts s h0 (by omega)) h1 n m e hw]
-  have : rejected p s (.fin n 0 F64.minExp) = false := by
-    unfold rejected
-    rw [count_special _ (Or.inr (Or.inr ⟨n, _, rfl⟩))]
-    rfl
-  rw [this]
+  apply exec_ok_of p s l r _ _ hl hr hp1 hp2 (by omega) (by omega)
+    (decimalRound_tiny (pow10_facts s h0 (by omega)) h1 n m e hw) rfl
+  unfold rejected
+  rw [count_special _ (Or.inr (Or.inr ⟨n, _, rfl⟩))]
   rfl
-
-theorem decimal_tiny_scale_go (s : Int) (n : Bool) (m : Nat) (e : Int) (hw : F64.WF (.fin n m e))
-    (h0 : -323 ≤ s) (h1 : s ≤ -309) : decimalRound (.fin n m e) (goPow10 s) = .fin n 0 F64.minExp :=
-  decimalRound_tiny (goPow10_facts s h0 (by omega)) h1 n m e hw
 
 set_option exponentiation.threshold 2000 in
 theorem two_pow_1025_le : 2 * 2 ^ 1024 ≤ 10 ^ 309 := by decide +kernel
@@ -138,8 +147,8 @@ theorem tiny_scale_zero_is_right (x : F64) (hf : x.isFinite = true) (hw : F64.WF
   generalize thr * den x = C at *
   omega
 
-/-- **negative scales −308 … −1: when the result is infinite.**  The product cannot overflow (the ratio is below one); the
-    final division overflows exactly when `round(v*ratio)/ratio ≥ 2^1024 − 2^970` -/
+/-- **scales −323 … 0: exactly when the rounded value is infinite.**  The product cannot overflow (the ratio is at most
+    one); the final division overflows exactly when `round(v*ratio)/ratio ≥ 2^1024 − 2^970` -/
 theorem decimal_neg_scale_inf_iff (v : F64) (s : Int) (hf : v.isFinite = true) (hw : F64.WF v)
     (h0 : -323 ≤ s) (h1 : s ≤ 0) :
     (F64.mul v (F64.pow10 s)).isInf = false ∧
@@ -158,6 +167,56 @@ theorem decimal_neg_scale_inf_iff (v : F64) (s : Int) (hf : v.isFinite = true) (
       omega
   exact ⟨hi, decimalRound_inf_iff hR hf hw hi⟩
 
+/-- **when the error for a value outside the finite doubles is raised** (`-323 ≤ s ≤ 0`, valid arguments): if
+    `round(v*ratio)/ratio ≥ 2^1024 − 2^970` the method fails with the suppressible error; otherwise the rounded value is
+    finite and the outcome is that of the digit check on it -/
+theorem decimal_rejects_overflow_iff (l r : Option Node) (p s : Int) (v : F64)
+    (hf : v.isFinite = true) (hw : F64.WF v) (hl : intArg l = some p) (hp1 : 1 ≤ p) (hp2 : p ≤ 1000)
+    (hr : scaleArg r = some s) (h0 : -323 ≤ s) (h1 : s ≤ 0) :
+    (thr * (den (F64.round (F64.mul v (F64.pow10 s))) * (Rounding.num (F64.pow10 s)).natAbs) ≤
+        (Rounding.num (F64.round (F64.mul v (F64.pow10 s)))).natAbs * den (F64.pow10 s) →
+      executeDecimalMethod l r v = .error .verbose) ∧
+    (¬ thr * (den (F64.round (F64.mul v (F64.pow10 s))) * (Rounding.num (F64.pow10 s)).natAbs) ≤
+        (Rounding.num (F64.round (F64.mul v (F64.pow10 s)))).natAbs * den (F64.pow10 s) →
+      (decimalRound v (F64.pow10 s)).isFinite = true ∧
+      executeDecimalMethod l r v =
+        if rejected p s (decimalRound v (F64.pow10 s)) then .error .verbose
+        else .ok (decimalRound v (F64.pow10 s))) := by
+  obtain ⟨_, hiff⟩ := decimal_neg_scale_inf_iff v s hf hw h0 h1
+  constructor
+  · intro hc
+    exact exec_err_of_inf p s l r v hl hr hp1 hp2 (by omega) (by omega) (hiff.mpr hc)
+  · intro hc
+    have hni : (decimalRound v (F64.pow10 s)).isInf = false := by
+      cases hx : (decimalRound v (F64.pow10 s)).isInf
+      · rfl
+      · exact absurd (hiff.mp hx) hc
+    refine ⟨finite_of_not_inf_nan hni (decimalRound_not_nan (pow10_facts s h0 (by omega)) hf hw).1, ?_⟩
+    rw [exec_eq p s l r v hl hr hp1 hp2 (by omega) (by omega), hni]
+    rfl
+
+/-- every error of a call with valid arguments at a scale −323 … 308 is the suppressible one, and it has exactly two
+    causes: the rounded value is infinite, or it fails the digit check -/
+theorem decimal_error_causes (l r : Option Node) (p s : Int) (v : F64) (e : Err)
+    (hl : intArg l = some p) (hp1 : 1 ≤ p) (hp2 : p ≤ 1000) (hr : scaleArg r = some s)
+    (h0 : -1000 ≤ s) (h1 : s ≤ 1000) (h : executeDecimalMethod l r v = .error e) :
+    e = .verbose ∧ ((decimalRound v (F64.pow10 s)).isInf = true ∨ rejected p s (decimalRound v (F64.pow10 s)) = true) := by
+  rw [exec_eq p s l r v hl hr hp1 hp2 h0 h1] at h
+  cases hi : (decimalRound v (F64.pow10 s)).isInf
+  · rw [hi] at h
+    cases hj : rejected p s (decimalRound v (F64.pow10 s))
+    · rw [hj] at h
+      simp only [Bool.false_eq_true, if_false] at h
+      cases h
+    · rw [hj] at h
+      simp only [Bool.false_eq_true, if_false, if_true] at h
+      cases h
+      exact ⟨rfl, Or.inr rfl⟩
+  · rw [hi] at h
+    simp only [if_true] at h
+    cases h
+    exact ⟨rfl, Or.inl rfl⟩
+
 /-! ## (b) the D37 repair: an overflowing product means there is nothing to round -/
 
 /-- **when `v * Pow10(scale)` overflows although `Pow10(scale)` is finite**, the scale is positive, `v` is an exact
@@ -172,17 +231,13 @@ theorem decimal_overflow_unchanged (v : F64) (s : Int) (hf : v.isFinite = true) 
   have h308 : s ≤ 308 := by
     apply Classical.byContradiction
     intro hgt
-    have : F64.pow10 s = .inf false := by
-      unfold F64.pow10
-      rw [if_neg (by omega), if_pos (by omega)]
+    have : F64.pow10 s = .inf false := pow10_above s (by omega)
     rw [this] at hfin; cases hfin
   obtain ⟨na, ma, ea, rfl⟩ := fin_of_finite hf
   have h323 : -323 ≤ s := by
     apply Classical.byContradiction
     intro hlt
-    have : F64.pow10 s = .fin false 0 F64.minExp := by
-      unfold F64.pow10
-      rw [if_pos (by omega)]
+    have : F64.pow10 s = .fin false 0 F64.minExp := pow10_below s (by omega)
     rw [this, C13c.mul_zero_sign na ma ea false 0 F64.minExp (Or.inr rfl)] at hinf
     cases hinf
   have hR := pow10_facts s h323 h308
@@ -193,62 +248,36 @@ theorem decimal_overflow_unchanged (v : F64) (s : Int) (hf : v.isFinite = true) 
   · exact Nat.pow_dvd_pow 2 (by omega)
   · exact Nat.pow_dvd_pow 2 (by omega)
 
-/-- the same for Go's real `math.Pow10` -/
-theorem decimal_overflow_unchanged_go (v : F64) (s : Int) (hf : v.isFinite = true) (hw : F64.WF v)
-    (h0 : -323 ≤ s) (h1 : s ≤ 308) (hinf : (F64.mul v (goPow10 s)).isInf = true) :
-    decimalRound v (goPow10 s) = v ∧ 0 < s ∧
-    (∃ k : Int, Rounding.num v * ((10 ^ s.toNat : Nat) : Int) = k * (den v : Int)) ∧
-    den v ∣ 2 ^ 52 ∧ den v ∣ 2 ^ s.toNat := by
-  obtain ⟨na, ma, ea, rfl⟩ := fin_of_finite hf
-  have hR := goPow10_facts s h0 h1
-  obtain ⟨mr, er, hre, hmr⟩ := ratio_shape hR
-  rw [hre] at hinf hR ⊢
-  obtain ⟨hs, he1, he2⟩ := overflow_exponent hR na ma ea hw hinf
-  exact ⟨decimalRound_inf hinf rfl, hs, multiple_of_exponent na ma ea s (by omega) he1,
-    Nat.pow_dvd_pow 2 (by omega), Nat.pow_dvd_pow 2 (by omega)⟩
-
 /-- through the executor: in the overflow case a successful call returns its input -/
 theorem decimal_overflow_returns_input (l r : Option Node) (v x : F64) (s : Int)
     (hr : scaleArg r = some s) (hinf : (F64.mul v (F64.pow10 s)).isInf = true)
     (hfin : (F64.pow10 s).isFinite = true) (h : executeDecimalMethod l r v = .ok x) : x = v := by
-  rcases ok_shape hr h with hx | ⟨hx, _, _⟩
+  rcases ok_shape hr h with hx | ⟨hx, hni, _, _⟩
   · exact hx
   · rw [hx]; exact decimalRound_inf hinf hfin
 
 /-! ## (c) accuracy -/
 
-/-- **the error of `.decimal(p, s)`, `-307 ≤ s ≤ 308`**: a finite result `x` satisfies
+/-- **the error of `.decimal(p, s)`, `-307 ≤ s ≤ 308`**: a returned value `x` (finite by `decimal_finite`) satisfies
     `|x − v| ≤ (1/2 + 2^-50) · 10^-s + 2^-51 · |v|` — half a unit of the requested scale plus a few units in the last
     place — stated without division: both sides multiplied by `2^51 · 10^s · den x · den v`, where `10^s` is
-    `10^s.toNat / 10^(-s).toNat`.  Moreover `x` has the sign bit of `v`.  (For `0 ≤ s` the hypothesis `x.isFinite` holds by
-    `decimal_finite`.) -/
+    `10^s.toNat / 10^(-s).toNat`.  Moreover `x` has the sign bit of `v`. -/
 theorem decimal_accuracy (l r : Option Node) (v x : F64) (s : Int)
     (hf : v.isFinite = true) (hw : F64.WF v) (hr : scaleArg r = some s) (h0 : -307 ≤ s) (h1 : s ≤ 308)
-    (h : executeDecimalMethod l r v = .ok x) (hxf : x.isFinite = true) :
+    (h : executeDecimalMethod l r v = .ok x) :
     2 ^ 51 * 10 ^ s.toNat * (Rounding.num x * (den v : Int) - Rounding.num v * (den x : Int)).natAbs ≤
       (2 ^ 50 + 2) * 10 ^ (-s).toNat * (den x * den v) + 10 ^ s.toNat * (Rounding.num v).natAbs * den x ∧
     x.signBit = v.signBit := by
-  rcases ok_shape hr h with hx | ⟨hx, _, _⟩
+  rcases ok_shape hr h with hx | ⟨hx, hni, _, _⟩
   · subst hx
     rw [Int.sub_self, Int.natAbs_zero, Nat.mul_zero]
     exact ⟨Nat.zero_le _, rfl⟩
   · have hR := pow10_facts s (by omega) h1
+    have hxf := decimal_finite l r v x s hf hw hr (by omega) h1 h
     rw [hx] at hxf ⊢
     exact ⟨decimalRound_accuracy_facts hR h0 h1 hf hxf, decimalRound_signBit_facts hR hf hw⟩
 
-/-- the same bound for Go's real `math.Pow10` -/
-theorem decimal_accuracy_go (v : F64) (s : Int) (hf : v.isFinite = true) (hw : F64.WF v)
-    (h0 : -307 ≤ s) (h1 : s ≤ 308) (hxf : (decimalRound v (goPow10 s)).isFinite = true) :
-    2 ^ 51 * 10 ^ s.toNat * (Rounding.num (decimalRound v (goPow10 s)) * (den v : Int) -
-        Rounding.num v * (den (decimalRound v (goPow10 s)) : Int)).natAbs ≤
-      (2 ^ 50 + 2) * 10 ^ (-s).toNat * (den (decimalRound v (goPow10 s)) * den v) +
-        10 ^ s.toNat * (Rounding.num v).natAbs * den (decimalRound v (goPow10 s)) ∧
-    (decimalRound v (goPow10 s)).signBit = v.signBit :=
-  ⟨decimalRound_accuracy_facts (goPow10_facts s (by omega) h1) h0 h1 hf hxf,
-    decimalRound_signBit_facts (goPow10_facts s (by omega) h1) hf hw⟩
-
 theorem pow10_zero : F64.pow10 0 = one := by decide +kernel
-theorem goPow10_zero : goPow10 0 = one := by decide +kernel
 
 /-- **scale 0** (also `.decimal(p)` without a scale): the result is exactly `math.Round(v)`, for every finite input —
     multiplying and dividing by `1.0` are exact -/
@@ -256,7 +285,7 @@ theorem decimal_scale_zero_is_round (l r : Option Node) (v x : F64)
     (hf : v.isFinite = true) (hw : F64.WF v) (hl : l ≠ none) (hr : scaleArg r = some 0)
     (h : executeDecimalMethod l r v = .ok x) : x = F64.round v := by
   obtain ⟨na, ma, ea, rfl⟩ := fin_of_finite hf
-  rcases exec_ok_cases h with ⟨hn, _⟩ | ⟨p, s', _, hs', _, _, _, _, hx, _⟩
+  rcases exec_ok_cases h with ⟨hn, _⟩ | ⟨p, s', _, hs', _, _, _, _, hx, _, _⟩
   · exact absurd hn hl
   · rw [hr] at hs'
     cases hs'
@@ -279,16 +308,10 @@ theorem decimal_unchanged (l r : Option Node) (n : Bool) (m : Nat) (e : Int) (x 
     (K : Nat) (hK : K < 2 ^ 53)
     (hv : (Rounding.num (.fin n m e)).natAbs * 10 ^ s.toNat = K * den (.fin n m e))
     (h : executeDecimalMethod l r (.fin n m e) = .ok x) : x = .fin n m e := by
-  rcases ok_shape hr h with hx | ⟨hx, _, _⟩
+  rcases ok_shape hr h with hx | ⟨hx, hni, _, _⟩
   · exact hx
   · rw [hx]
     exact decimalRound_unchanged (pow10_facts s (by omega) (by omega)) h0 h1 n m e hw K hK hv
-
-theorem decimal_unchanged_go (n : Bool) (m : Nat) (e : Int) (s : Int)
-    (hw : F64.WF (.fin n m e)) (h0 : 0 ≤ s) (h1 : s ≤ 22) (K : Nat) (hK : K < 2 ^ 53)
-    (hv : (Rounding.num (.fin n m e)).natAbs * 10 ^ s.toNat = K * den (.fin n m e)) :
-    decimalRound (.fin n m e) (goPow10 s) = .fin n m e :=
-  decimalRound_unchanged (goPow10_facts s (by omega) (by omega)) h0 h1 n m e hw K hK hv
 
 /-! ## (d) D17c: scales outside the range of `math.Pow10` -/
 
@@ -302,21 +325,17 @@ theorem rejected_nan (p s : Int) : rejected p s .nan = false := by
 theorem decimal_scale_above_308_nan (l r : Option Node) (p s : Int) (v : F64)
     (hl : intArg l = some p) (hp1 : 1 ≤ p) (hp2 : p ≤ 1000) (hr : scaleArg r = some s) (h0 : 308 < s) (h1 : s ≤ 1000) :
     executeDecimalMethod l r v = .ok .nan := by
-  have hp : F64.pow10 s = .inf false := by
-    unfold F64.pow10
-    rw [if_neg (by omega), if_pos (by omega)]
-  rw [exec_eq p s l r _ hl hr hp1 hp2 (by omega) h1, hp, decimalRound_ratio_inf, rejected_nan]
-  rfl
+  have hp : F64.pow10 s = .inf false := pow10_above s h0
+  apply exec_ok_of p s l r _ _ hl hr hp1 hp2 (by omega) h1 _ rfl (rejected_nan p s)
+  rw [hp, decimalRound_ratio_inf]
 
 /-- **D17c, lower side**: for `-1000 ≤ scale < -323` (`Pow10 = 0`) likewise: `0/0` -/
 theorem decimal_scale_below_minus323_nan (l r : Option Node) (p s : Int) (v : F64)
     (hl : intArg l = some p) (hp1 : 1 ≤ p) (hp2 : p ≤ 1000) (hr : scaleArg r = some s) (h0 : -1000 ≤ s) (h1 : s < -323) :
     executeDecimalMethod l r v = .ok .nan := by
-  have hp : F64.pow10 s = .fin false 0 F64.minExp := by
-    unfold F64.pow10
-    rw [if_pos (by omega)]
-  rw [exec_eq p s l r _ hl hr hp1 hp2 h0 (by omega), hp, decimalRound_ratio_zero, rejected_nan]
-  rfl
+  have hp : F64.pow10 s = .fin false 0 F64.minExp := pow10_below s h1
+  apply exec_ok_of p s l r _ _ hl hr hp1 hp2 h0 (by omega) _ rfl (rejected_nan p s)
+  rw [hp, decimalRound_ratio_zero]
 
 /-! ## (e) D17b: what the digit check counts -/
 
@@ -379,9 +398,8 @@ def arg (i : Int) : Option Node := some (.integer i none)
 /-- the largest finite double, `MaxFloat64 = 1.7976931348623157e308` -/
 def maxF : F64 := b 0x7FEFFFFFFFFFFFFF
 
-/-- the 169 scales at which a Go program finds `math.Pow10(n) ≠ strconv.ParseFloat("1e<n>")` (and `#eval differingScales`
-    finds `F64.pow10 n ≠ goPow10 n`) -/
-def goDiffers : List Int :=
+/-- the 169 scales at which a Go program finds `math.Pow10(n) ≠ strconv.ParseFloat("1e<n>")` -/
+def notNearest : List Int :=
     [-307, -303, -302, -298, -291, -286, -281, -276, -273, -259, -252, -250, -249, -247, -244, -233, -227, -226,
      -223, -221, -220, -215, -214, -213, -212, -207, -204, -202, -201, -200, -199, -198, -197, -194, -188, -185,
      -168, -159, -157, -153, -151, -148, -147, -145, -144, -143, -140, -137, -131, -129, -123, -122, -121, -117,
@@ -392,63 +410,60 @@ def goDiffers : List Int :=
      219, 227, 230, 231, 232, 235, 236, 238, 241, 242, 243, 244, 245, 246, 248, 249, 250, 251, 252, 259, 273, 274,
      279, 281, 284, 304]
 
-/-- **F1**: at each of these 169 scales the model's correctly rounded `pow10` is not what Go's `math.Pow10` returns; the
-    nearest to zero are 33 and −23, and on −22…32 the two agree.  (That they agree at all other scales is an evaluation,
-    `#eval differingScales = goDiffers`, not a theorem: it costs 40 s of kernel time.) -/
-theorem pow10_differs :
-    goDiffers.length = 169 ∧ (∀ s ∈ goDiffers, F64.pow10 s ≠ goPow10 s) ∧
-    (∀ i : Nat, i < 55 → F64.pow10 ((i : Int) - 22) = goPow10 ((i : Int) - 22)) ∧
-    F64.pow10 33 = b 0x46C8A6E32246C99C ∧ goPow10 33 = b 0x46C8A6E32246C99D ∧
-    F64.pow10 (-23) = b 0x3B282DB34012B251 ∧ goPow10 (-23) = b 0x3B282DB34012B252 := by
+/-- **F1**: at each of these 169 scales `math.Pow10(n)` (`F64.pow10`) is not the double nearest to `10^n`
+    (`nearestPow10`); e.g. `0x…C99D` against the nearest `0x…C99C` at 33.  (That it is the nearest double at all other
+    scales is an evaluation, `#eval`, not a theorem — 40 s of kernel time — except near zero, next theorem.) -/
+theorem pow10_not_nearest :
+    notNearest.length = 169 ∧ (∀ s ∈ notNearest, F64.pow10 s ≠ nearestPow10 s) ∧
+    F64.pow10 33 = b 0x46C8A6E32246C99D ∧ nearestPow10 33 = b 0x46C8A6E32246C99C ∧
+    F64.pow10 (-23) = b 0x3B282DB34012B252 ∧ nearestPow10 (-23) = b 0x3B282DB34012B251 := by
   decide +kernel
 
-/-- **F1 through the method**: `2e-33` at scale 33 is returned unchanged by the model but becomes
-    `1.9999999999999998e-33` with Go's ratio; `3e23` at scale −23 is unchanged in the model, `2.9999999999999997e+23` in Go
-    (both confirmed on /repo: `$.decimal(50,33)`, `$.decimal(50,-23)`) -/
-theorem model_differs_from_go :
-    decimalRound (b 0x3924C4E977BA1F5C) (F64.pow10 33) = b 0x3924C4E977BA1F5C ∧
-    decimalRound (b 0x3924C4E977BA1F5C) (goPow10 33) = b 0x3924C4E977BA1F5B ∧
-    decimalRound (b 0x44CFC3842BD1F072) (F64.pow10 (-23)) = b 0x44CFC3842BD1F072 ∧
-    decimalRound (b 0x44CFC3842BD1F072) (goPow10 (-23)) = b 0x44CFC3842BD1F071 := by decide +kernel
+/-- on −22 … 32 `math.Pow10` is the nearest double (for 0 … 22 it is exact: `DecimalMethod.RatioFacts.exact`) -/
+theorem pow10_nearest_near_zero :
+    ∀ i : Nat, i < 55 → F64.pow10 ((i : Int) - 22) = nearestPow10 ((i : Int) - 22) := by
+  decide +kernel
 
-/-- **F2**: `.decimal(1000, -308)` on `MaxFloat64` returns `+Inf`, no error (Go: the same) -/
-theorem neg_scale_returns_inf :
-    executeDecimalMethod (arg 1000) (arg (-308)) maxF = .ok (.inf false) := by
-  rw [exec_eq 1000 (-308) _ _ _ rfl rfl (by decide) (by decide) (by decide) (by decide)]
+/-- **F1 through the method**: `2e-33` at scale 33 becomes `1.9999999999999998e-33`, `3e23` at scale −23 becomes
+    `2.9999999999999997e+23` (Go: `$.decimal(50,33)`, `$.decimal(50,-23)`); with the nearest ratio both would be unchanged -/
+theorem inexact_ratio_is_visible :
+    decimalRound (b 0x3924C4E977BA1F5C) (F64.pow10 33) = b 0x3924C4E977BA1F5B ∧
+    decimalRound (b 0x3924C4E977BA1F5C) (nearestPow10 33) = b 0x3924C4E977BA1F5C ∧
+    decimalRound (b 0x44CFC3842BD1F072) (F64.pow10 (-23)) = b 0x44CFC3842BD1F071 ∧
+    decimalRound (b 0x44CFC3842BD1F072) (nearestPow10 (-23)) = b 0x44CFC3842BD1F072 := by decide +kernel
+
+/-- **F2, repaired**: `.decimal(1000, -308)` on `MaxFloat64` — the rounded value is `+Inf` — is the suppressible error -/
+theorem neg_scale_overflow_is_error :
+    decimalRound maxF (F64.pow10 (-308)) = .inf false ∧
+    executeDecimalMethod (arg 1000) (arg (-308)) maxF = .error .verbose := by
   have h1 : decimalRound maxF (F64.pow10 (-308)) = .inf false := by decide +kernel
-  rw [h1]
-  rfl
+  refine ⟨h1, ?_⟩
+  apply exec_err_of_inf 1000 (-308) _ _ _ rfl rfl (by decide) (by decide) (by decide) (by decide)
+  rw [h1]; rfl
 
-/-- the scales among −308…−290 at which `MaxFloat64` overflows, for the model's ratio and for Go's (a Go program finds
-    exactly these nine among all of −308…−1) -/
+/-- the scales among −308…−290 at which `MaxFloat64` takes the error branch (a Go program finds exactly these nine among
+    all of −308…−1) -/
 theorem neg_scale_overflow_scales :
     (((List.range 19).map (fun (i : Nat) => -(i : Int) - 290)).filter
-      (fun s => (decimalRound maxF (F64.pow10 s)).isInf)) = [-293, -294, -298, -299, -304, -305, -306, -307, -308] ∧
-    (((List.range 19).map (fun (i : Nat) => -(i : Int) - 290)).filter
-      (fun s => (decimalRound maxF (goPow10 s)).isInf)) = [-293, -294, -298, -299, -304, -305, -306, -307, -308] := by
+      (fun s => (decimalRound maxF (F64.pow10 s)).isInf)) = [-293, -294, -298, -299, -304, -305, -306, -307, -308] := by
   decide +kernel
 
-/-- **F3**: beyond scale 22 a value is not a fixed point: `1e-34` at scale 34 becomes `1.0000000000000001e-34` in the
-    model; with Go's ratio `1e-33` at scale 33 becomes `9.999999999999999e-34` -/
+/-- **F3**: beyond scale 22 a value is not a fixed point: `1e-33` at scale 33 becomes `9.999999999999999e-34`; and the
+    nearest ratio would not cure it: `1e-34` at scale 34 would become `1.0000000000000001e-34` -/
 theorem not_idempotent_beyond_22 :
-    decimalRound (b 0x38E09D8792FB4C49) (F64.pow10 34) = b 0x38E09D8792FB4C4A ∧
-    decimalRound (b 0x3914C4E977BA1F5C) (goPow10 33) = b 0x3914C4E977BA1F5B := by decide +kernel
+    decimalRound (b 0x3914C4E977BA1F5C) (F64.pow10 33) = b 0x3914C4E977BA1F5B ∧
+    decimalRound (b 0x38E09D8792FB4C49) (nearestPow10 34) = b 0x38E09D8792FB4C4A := by decide +kernel
 
 /-- **F3, inside the exact range**: the hypothesis `K < 2^53` of `decimal_unchanged` cannot be dropped — `0.1234567` has
-    seven decimals, `10^22` is a double, yet `.decimal(1000, 22)` returns the neighbour `0.12345669999999999`
-    (model, Go's ratio, and Go itself) -/
+    seven decimals, `10^22` is a double, yet `.decimal(1000, 22)` returns the neighbour `0.12345669999999999` (Go too) -/
 theorem unchanged_needs_small_scaled_value :
-    decimalRound (b 0x3FBF9ADBB8F8DA72) (F64.pow10 22) = b 0x3FBF9ADBB8F8DA71 ∧
-    decimalRound (b 0x3FBF9ADBB8F8DA72) (goPow10 22) = b 0x3FBF9ADBB8F8DA71 := by decide +kernel
+    decimalRound (b 0x3FBF9ADBB8F8DA72) (F64.pow10 22) = b 0x3FBF9ADBB8F8DA71 := by decide +kernel
 
 /-- D17b, second face: with `scale > precision` nothing is checked for values below one: `.decimal(2,5)` accepts `0.5` -/
 theorem small_value_any_scale_accepted :
-    executeDecimalMethod (arg 2) (arg 5) (b 0x3FE0000000000000) = .ok (b 0x3FE0000000000000) := by
-  rw [exec_eq 2 5 _ _ _ rfl rfl (by decide) (by decide) (by decide) (by decide)]
-  have h1 : decimalRound (b 0x3FE0000000000000) (F64.pow10 5) = b 0x3FE0000000000000 := by decide +kernel
-  have h2 : rejected 2 5 (b 0x3FE0000000000000) = false := by decide +kernel
-  rw [h1, h2]
-  rfl
+    executeDecimalMethod (arg 2) (arg 5) (b 0x3FE0000000000000) = .ok (b 0x3FE0000000000000) :=
+  exec_ok_of 2 5 _ _ _ _ rfl rfl (by decide) (by decide) (by decide) (by decide)
+    (by decide +kernel) (by decide +kernel) (by decide +kernel)
 
 end Findings
 
@@ -462,32 +477,23 @@ open Findings
 example : (F64.mul (b 0x7E37E43C8800759C) (F64.pow10 10)).isInf = true ∧ (F64.pow10 10).isFinite = true ∧
     (b 0x7E37E43C8800759C).isFinite = true ∧ F64.WF (b 0x7E37E43C8800759C) := by decide +kernel
 
-example : executeDecimalMethod (arg 1000) (arg 10) (b 0x7E37E43C8800759C) = .ok (b 0x7E37E43C8800759C) := by
-  rw [exec_eq 1000 10 _ _ _ rfl rfl (by decide) (by decide) (by decide) (by decide)]
-  have h1 : decimalRound (b 0x7E37E43C8800759C) (F64.pow10 10) = b 0x7E37E43C8800759C :=
+example : executeDecimalMethod (arg 1000) (arg 10) (b 0x7E37E43C8800759C) = .ok (b 0x7E37E43C8800759C) :=
+  exec_ok_of 1000 10 _ _ _ _ rfl rfl (by decide) (by decide) (by decide) (by decide)
     (decimal_overflow_unchanged _ 10 (by decide +kernel) (by decide +kernel) (by decide +kernel) (by decide +kernel)).1
-  have h2 : rejected 1000 10 (b 0x7E37E43C8800759C) = false := by decide +kernel
-  rw [h1, h2]
-  rfl
+    (by decide +kernel) (by decide +kernel)
 
 /-- D37, second witness: `2` at `(1000, 308)` -/
 example : (F64.mul (b 0x4000000000000000) (F64.pow10 308)).isInf = true ∧ (F64.pow10 308).isFinite = true := by
   decide +kernel
 
-example : executeDecimalMethod (arg 1000) (arg 308) (b 0x4000000000000000) = .ok (b 0x4000000000000000) := by
-  rw [exec_eq 1000 308 _ _ _ rfl rfl (by decide) (by decide) (by decide) (by decide)]
-  have h1 : decimalRound (b 0x4000000000000000) (F64.pow10 308) = b 0x4000000000000000 := by decide +kernel
-  have h2 : rejected 1000 308 (b 0x4000000000000000) = false := by decide +kernel
-  rw [h1, h2]
-  rfl
+example : executeDecimalMethod (arg 1000) (arg 308) (b 0x4000000000000000) = .ok (b 0x4000000000000000) :=
+  exec_ok_of 1000 308 _ _ _ _ rfl rfl (by decide) (by decide) (by decide) (by decide)
+    (by decide +kernel) (by decide +kernel) (by decide +kernel)
 
 /-- `123.456` at `(4, 1)` is `123.5` -/
-theorem ex_123 : executeDecimalMethod (arg 4) (arg 1) (b 0x405EDD2F1A9FBE77) = .ok (b 0x405EE00000000000) := by
-  rw [exec_eq 4 1 _ _ _ rfl rfl (by decide) (by decide) (by decide) (by decide)]
-  have h1 : decimalRound (b 0x405EDD2F1A9FBE77) (F64.pow10 1) = b 0x405EE00000000000 := by decide +kernel
-  have h2 : rejected 4 1 (b 0x405EE00000000000) = false := by decide +kernel
-  rw [h1, h2]
-  rfl
+theorem ex_123 : executeDecimalMethod (arg 4) (arg 1) (b 0x405EDD2F1A9FBE77) = .ok (b 0x405EE00000000000) :=
+  exec_ok_of 4 1 _ _ _ _ rfl rfl (by decide) (by decide) (by decide) (by decide)
+    (by decide +kernel) (by decide +kernel) (by decide +kernel)
 
 /-- … and the theorems instantiated on it: finite, and within the bound -/
 example : (b 0x405EE00000000000).isFinite = true :=
@@ -498,8 +504,7 @@ example :
         Rounding.num (b 0x405EDD2F1A9FBE77) * (den (b 0x405EE00000000000) : Int)).natAbs ≤
       (2 ^ 50 + 2) * 10 ^ (-(1 : Int)).toNat * (den (b 0x405EE00000000000) * den (b 0x405EDD2F1A9FBE77)) +
         10 ^ (1 : Int).toNat * (Rounding.num (b 0x405EDD2F1A9FBE77)).natAbs * den (b 0x405EE00000000000) :=
-  (decimal_accuracy _ _ _ _ 1 (by decide +kernel) (by decide +kernel) rfl (by decide) (by decide) ex_123
-    (by decide +kernel)).1
+  (decimal_accuracy _ _ _ _ 1 (by decide +kernel) (by decide +kernel) rfl (by decide) (by decide) ex_123).1
 
 /-- `123.5` has one decimal and `1235 < 2^53`: the hypotheses of `decimal_unchanged` at scale 1 -/
 example : (Rounding.num (b 0x405EE00000000000)).natAbs * 10 ^ (1 : Int).toNat = 1235 * den (b 0x405EE00000000000) := by
@@ -507,28 +512,19 @@ example : (Rounding.num (b 0x405EE00000000000)).natAbs * 10 ^ (1 : Int).toNat = 
 
 /-- `99.999` at `(4, 2)` rounds to `100` — three integer digits but only one of them non-zero, `1 ≤ 4 − 2`: ACCEPTED
     (D17b; PostgreSQL's `numeric(4,2)` rejects it).  Go returns `100`. -/
-example : executeDecimalMethod (arg 4) (arg 2) (b 0x4058FFEF9DB22D0E) = .ok (b 0x4059000000000000) := by
-  rw [exec_eq 4 2 _ _ _ rfl rfl (by decide) (by decide) (by decide) (by decide)]
-  have h1 : decimalRound (b 0x4058FFEF9DB22D0E) (F64.pow10 2) = b 0x4059000000000000 := by decide +kernel
-  have h2 : rejected 4 2 (b 0x4059000000000000) = false := by decide +kernel
-  rw [h1, h2]
-  rfl
+example : executeDecimalMethod (arg 4) (arg 2) (b 0x4058FFEF9DB22D0E) = .ok (b 0x4059000000000000) :=
+  exec_ok_of 4 2 _ _ _ _ rfl rfl (by decide) (by decide) (by decide) (by decide)
+    (by decide +kernel) (by decide +kernel) (by decide +kernel)
 
-/-- a value that IS rejected: `99.999` at `(3, 2)` → `100`?  no: still one non-zero digit.  `99.994` at `(3, 2)` rounds to
-    `99.99`: two non-zero integer digits against `3 − 2 = 1`: rejected with the suppressible error -/
-example : executeDecimalMethod (arg 3) (arg 2) (b 0x4058FF9DB22D0E56) = .error .verbose := by
-  rw [exec_eq 3 2 _ _ _ rfl rfl (by decide) (by decide) (by decide) (by decide)]
-  have h2 : rejected 3 2 (decimalRound (b 0x4058FF9DB22D0E56) (F64.pow10 2)) = true := by decide +kernel
-  rw [h2]
-  rfl
+/-- a value that IS rejected by the digit check: `99.994` at `(3, 2)` rounds to `99.99`: two non-zero integer digits
+    against `3 − 2 = 1`: the suppressible error (Go: the same) -/
+example : executeDecimalMethod (arg 3) (arg 2) (b 0x4058FF9DB22D0E56) = .error .verbose :=
+  exec_err_of_rejected 3 2 _ _ _ rfl rfl (by decide) (by decide) (by decide) (by decide) (by decide +kernel)
 
 /-- D17b: `100` at `(2, 0)` is accepted; its integer digits are `1 0 0`: three digits, two of them zero -/
-example : executeDecimalMethod (arg 2) (arg 0) (b 0x4059000000000000) = .ok (b 0x4059000000000000) := by
-  rw [exec_eq 2 0 _ _ _ rfl rfl (by decide) (by decide) (by decide) (by decide)]
-  have h1 : decimalRound (b 0x4059000000000000) (F64.pow10 0) = b 0x4059000000000000 := by decide +kernel
-  have h2 : rejected 2 0 (b 0x4059000000000000) = false := by decide +kernel
-  rw [h1, h2]
-  rfl
+example : executeDecimalMethod (arg 2) (arg 0) (b 0x4059000000000000) = .ok (b 0x4059000000000000) :=
+  exec_ok_of 2 0 _ _ _ _ rfl rfl (by decide) (by decide) (by decide) (by decide)
+    (by decide +kernel) (by decide +kernel) (by decide +kernel)
 
 example : b 0x4059000000000000 = .fin false 7036874417766400 (-46) ∧
     intDigits 7036874417766400 (-46) = ['1', '0', '0'] := by decide +kernel
@@ -548,6 +544,11 @@ example : executeDecimalMethod (arg 2) (arg (-324)) (b 0) = .ok .nan :=
 /-- scale −309 on `MaxFloat64`: zero (Go: `0`) -/
 example : executeDecimalMethod (arg 2) (arg (-309)) maxF = .ok (.fin false 0 F64.minExp) :=
   decimal_tiny_scale _ _ 2 (-309) false _ _ (by decide +kernel) rfl (by decide) (by decide) rfl (by decide) (by decide)
+
+/-- scale −295 on `MaxFloat64` does not overflow: `1.7976931348623e+308` (Go: the same bits) -/
+example : executeDecimalMethod (arg 1000) (arg (-295)) maxF = .ok (b 0x7FEFFFFFFFFFFFB0) :=
+  exec_ok_of 1000 (-295) _ _ _ _ rfl rfl (by decide) (by decide) (by decide) (by decide)
+    (by decide +kernel) (by decide +kernel) (by decide +kernel)
 
 end Examples
 
